@@ -108,6 +108,31 @@ CORPUS = {
 
             masks.append(&mut result);
         }''')], 'R-C03-1'),
+        ('max-selection-against-first-member', 'fire', [(RP, '        let mut max_index = 0;\n', '        let mut max_index = 0;\n        let first_mn = max_mn;\n'),
+                                                       (RP, '            if full_length > max_mn {', '            if full_length > first_mn {')], 'R-C03-7'),
+        ('max-selection-as-try-fold', 'quiet', [(RP, '''            let full_length = statement
+                .commitments
+                .len()
+                .checked_mul(statement.generators.bit_length())
+                .ok_or(ProofError::SizeOverflow)?;
+            if full_length > max_mn {
+                max_mn = full_length;
+                max_index = i;
+            }
+        }''', '''        }
+        let (max_mn, max_index) = statements.iter().enumerate().skip(1).try_fold(
+            (max_mn, max_index),
+            |(mn, index), (i, statement)| -> Result<(usize, usize), ProofError> {
+                let full_length = statement
+                    .commitments
+                    .len()
+                    .checked_mul(statement.generators.bit_length())
+                    .ok_or(ProofError::SizeOverflow)?;
+                Ok(if full_length > mn { (full_length, i) } else { (mn, index) })
+            },
+        )?;'''), (RP, '        let mut max_index = 0;\n', '        let max_index = 0;\n'), (RP, '''        let mut max_mn = first_statement
+            .commitments''', '''        let max_mn = first_statement
+            .commitments''')], None),
         Q_REORDER_GUARDS, Q_ERRMSG, Q_RENAME_WEIGHT,
     ],
     'C04': [
